@@ -1,7 +1,7 @@
 (* C08 -- the XML formatter always returns well-formed, placeholder-free markup.
 
    Model: XV.XmlFmt, tied to xmldiff/formatting.py by harness/xmlfmt_corr.py on every run.
-   Only statements here; proofs in XV.XmlFmtProofs0-9, A, B, C.
+   Only statements here; proofs in XV.XmlFmtProofs0-9, R2, A, B, C.
 
    What is claimed of the model, and what is left to lxml:
      "completes"          xml_format .. = FOk T : no ValueError from _xpath, no KeyError from the attribute
@@ -21,26 +21,28 @@
      iact_plain           the strings the script brings (tags, attribute names and values) have no private-use
                           character, tags are not in the diff namespace, and there is no InsertComment (the formatter
                           has no handler for it; prepare() removed the comments);
-     DMPTotalMain.bisect_safe   the one open obligation of the text-diff model (XV.DMPTotalMain): diff_bisect's
-                          middle-snake search returns on the inputs diff_compute gives it.  diff_main is total under
-                          it (diff_main_total); diff_cleanupSemantic is total unconditionally (cleanupSemantic_total).
+   The text-diff model is total: DMPBisect5.bisect_safe_holds discharges the obligation DMPTotalMain.bisect_safe
+   (diff_bisect's middle-snake search returns), so no premise about it is left.
 
-   PARTIAL: proved for configurations without text tags and without use_replace, under bisect_safe and run_ok.
+   PARTIAL: proved for configurations without text tags, with or without use_replace, under run_ok (with use_replace
+   run_ok also asks that the maker has a free private-use code point per character of every new text: room_ok, see
+   Properties/C09.v).
    With use_replace AND text_tags the full statement is FALSE (C08_total_clean_refuted, open finding
-   "use_replace-with-text_tags").  Not covered by a theorem: text_tags <> [] with use_replace = false, and
-   use_replace = true with text_tags = [] (correspondence + oracle only). *)
+   "use_replace-with-text_tags").  With text_tags and formatting_tags WITHOUT use_replace it is FALSE as well
+   (C08_texttags_refuted, open finding "identical-formatting-elements-cross").  Not covered by a theorem: text_tags <> []
+   outside those findings (correspondence + oracle only). *)
 From Coq Require Import List NArith ZArith Bool.
 Import ListNotations.
 Require Import XV.Str XV.Json XV.TextFormat XV.Forest XV.Matcher XV.Differ XV.Spec XV.Path XV.WF XV.PathProofs XV.Render
-               XV.XmlFmt XV.Projections XV.XmlFmtProofs1 XV.XmlFmtProofs2 XV.XmlFmtProofs3 XV.XmlFmtProofs4 XV.XmlFmtProofs5
+               XV.XmlFmt XV.Projections XV.XmlFmtProofs1 XV.XmlFmtProofs2 XV.XmlFmtProofsR2 XV.XmlFmtProofs3 XV.XmlFmtProofs4 XV.XmlFmtProofs5
                XV.XmlFmtProofs9 XV.XmlFmtProofsB XV.XmlFmtProofsC.
-Require XV.Placeholder XV.PlaceholderUndo XV.DMP XV.DMPTotalMain.
+Require XV.Placeholder XV.PlaceholderUndo XV.DMP XV.DMPTotalMain XV.DMPBisect5.
 Local Open Scope N_scope.
 
 Theorem C08_total_clean_partial :
   forall (c : cfg) (o : oracle) (rootns : list (option str * str)) (pe : penv) (root : id)
          (L : forest) (script : list iact) (gs : list gaction) (fT : forest),
-  c_tt c = [] -> c_replace c = false -> DMPTotalMain.bisect_safe ->
+  c_tt c = [] ->
   wf_forest L root -> (forall m, desc L root m -> is_comment (ltag (flab L m)) = false) ->
   let W := remove_comments (doc_tree L root) in
   PlaceholderUndo.npua W = true -> clean_tags W -> nodiff W -> wclean W ->
@@ -50,28 +52,26 @@ Theorem C08_total_clean_partial :
   run_ok c o rootns (FS W Placeholder.ph_init [(Some DIFF_PREFIX, DIFF_NS)]) gs ->
   exists T, xml_format c o rootns Placeholder.ph_init gs W = FOk T /\ out_clean T = true.
 Proof.
-  intros c o rootns pe root L script gs fT _ Hrep Hbis. exact (format_total_clean c o rootns pe root Hrep Hbis L script gs fT).
+  intros c o rootns pe root L script gs fT _. exact (format_total_clean c o rootns pe root L script gs fT).
 Qed.
 Print Assumptions C08_total_clean_partial.
 
 (* whatever the script: once the handlers have returned, finalize returns as well (every open placeholder of a
-   marked-up text is closed: no IndexError in undo_string) and the result is clean *)
-Theorem C08_finalize_clean : forall W, winv W -> wclean W ->
-  exists T, finalize Placeholder.ph_init W = FOk T /\ out_clean T = true.
-Proof. exact finalize_clean. Qed.
+   marked-up text is closed: no IndexError in undo_string) and the result is clean.  S: the maker at that point (any
+   maker without text-tag placeholders the strings of W are runs over) *)
+Theorem C08_finalize_clean : forall S W, tinv S -> winv S W -> wclean W ->
+  exists T, finalize S W = FOk T /\ out_clean T = true.
+Proof. intros S W H. exact (finalize_clean S H W). Qed.
 Print Assumptions C08_finalize_clean.
 
-(* the handlers keep the invariants finalize needs, one action at a time *)
+(* the handlers keep the invariants finalize needs, one action at a time; the maker only grows (by diff:replace
+   openers), and not at all without use_replace *)
 Theorem C08_step_invariants :
-  forall (c : cfg) (o : oracle) (rootns : list (option str * str)) (st : fstate) (d : dact) (st' : fstate),
-  c_replace c = false -> winv (fs_tree st) -> wclean (fs_tree st) -> fs_ph st = Placeholder.ph_init ->
-  step_ok rootns st d -> act_plain d -> handle_d c o rootns st d = FOk st' ->
-  winv (fs_tree st') /\ wclean (fs_tree st') /\ fs_ph st' = Placeholder.ph_init.
-Proof.
-  intros c o rootns st d st' Hrep HW HC Hph Hok Hpl H.
-  destruct (step_reject c o rootns Hrep st d st' HW Hph Hok H) as (A & B & _).
-  split; [exact A|]. split; [exact (step_clean c o rootns st d st' HC Hok Hpl H)|exact B].
-Qed.
+  forall (S : Placeholder.state) (c : cfg) (o : oracle) (rootns : list (option str * str)) (st : fstate) (d : dact) (st' : fstate),
+  tinv S -> winv S (fs_tree st) -> wclean (fs_tree st) -> tinv (fs_ph st) -> sext (fs_ph st') S ->
+  step_ok rootns st d -> room_ok c st d -> act_plain d -> handle_d c o rootns st d = FOk st' ->
+  winv S (fs_tree st') /\ wclean (fs_tree st') /\ tinv (fs_ph st') /\ sext (fs_ph st) (fs_ph st').
+Proof. exact step_invariants. Qed.
 Print Assumptions C08_step_invariants.
 
 (* REFUTED in general (open finding "use_replace-with-text_tags", both witnesses replayed on the implementation by
@@ -109,7 +109,42 @@ Proof.
 Qed.
 Print Assumptions C08_total_clean_refuted.
 
-(* Non-vacuity of the partial theorem: the example of Properties/C09.v, under bisect_safe *)
+(* REFUTED with text tags and formatting tags, WITHOUT use_replace (open finding "identical-formatting-elements-cross",
+   both witnesses replayed on the implementation by harness/xmlfmt_corr.py KNOWN_STREAM on every run):
+   (A) <p> <b> </b>y</p> vs <p> <b> </b><b> </b>y</p>, text_tags = p, formatting_tags = b: format() raises AssertionError
+       (assert stack_op <= op in _realign_placeholders: diff_cleanupSemantic shifts the inserted copy so that its OPEN
+       placeholder is inserted while its CLOSE placeholder is the EQUAL one);
+   (B) <p>x <b>x y</b></p> vs <p><b>x y</b>xx y<b/>y</p>, same configuration: format() raises IndexError (pop from empty
+       list in undo_string: the marked copies of the same OPEN/CLOSE pair interleave). *)
+Definition wB (text tail : option str) : tree := wE [98] text tail [].
+Definition wc_L : tree := wE [112] (Some [32]) None [wB (Some [32]) (Some [121])].
+Definition wc_R : tree := wE [112] (Some [32]) None [wB (Some [32]) None; wB (Some [32]) (Some [121])].
+Definition wd_L : tree := wE [112] (Some [120;32]) None [wB (Some [120;32;121]) None].
+Definition wd_R : tree := wE [112] None None [wB (Some [120;32;121]) (Some [120;120;32;121]); wB None (Some [121])].
+Definition wc_c : cfg := Cfg 0 false [[112]] [[98]].
+
+Theorem C08_texttags_refuted :
+  (exists c L R gs, let '(s, L', R') := prepare c L R in
+     c_replace c = false /\
+     PlaceholderUndo.npua (remove_comments L) = true /\ PlaceholderUndo.npua (remove_comments R) = true /\
+     gs = [w_upd [47;112;91;49;93] (Placeholder.xtext R')] /\
+     xml_format c w_o [] s gs L' = FErr FAssertionError) /\
+  (exists c L R gs, let '(s, L', R') := prepare c L R in
+     c_replace c = false /\
+     PlaceholderUndo.npua (remove_comments L) = true /\ PlaceholderUndo.npua (remove_comments R) = true /\
+     gs = [w_upd [47;112;91;49;93] (Placeholder.xtext R')] /\
+     xml_format c w_o [] s gs L' = FErr FIndexError).
+Proof.
+  split.
+  - exists wc_c, wc_L, wc_R, [w_upd [47;112;91;49;93] (Some [32; 57352; 32; 57351; 57352; 32; 57351; 121])].
+    vm_compute. auto.
+  - exists wc_c, wd_L, wd_R,
+      [w_upd [47;112;91;49;93] (Some [57352; 120; 32; 121; 57351; 120; 120; 32; 121; 57354; 57353; 121])].
+    vm_compute. auto.
+Qed.
+Print Assumptions C08_texttags_refuted.
+
+(* Non-vacuity of the partial theorem: the example of Properties/C09.v *)
 Definition exL : forest := mk_forest [(0%nat, [1%nat; 2%nat])]
   [(0%nat, Lab (TElem [97]) [] None None); (1%nat, Lab (TElem [98]) [] (Some [120;121]) (Some [116]));
    (2%nat, Lab (TElem [99]) [] None None)] 3.
@@ -124,3 +159,10 @@ Example C08_example :
               (remove_comments (doc_tree exL 0%nat)) = FOk T /\ out_clean T = true.
 Proof. eexists. vm_compute. split; reflexivity. Qed.
 Print Assumptions C08_example.
+
+Example C08_example_replace :
+  exists T, xml_format (Cfg 0 true [] []) w_o [] Placeholder.ph_init
+              (match render_script (fun _ => None) 0%nat exL exS with Some gs => gs | None => [] end)
+              (remove_comments (doc_tree exL 0%nat)) = FOk T /\ out_clean T = true.
+Proof. eexists. vm_compute. split; reflexivity. Qed.
+Print Assumptions C08_example_replace.
